@@ -1,6 +1,6 @@
 (* C08 property theorems: statements only, each closed by [exact]. *)
 From Boltons Require Import Lib.Prelude Lib.C08_Py Spec.C08_Spec Model.C08_Model
-  Proofs.C08_Machine Proofs.C08_Tree Proofs.C08_Witness.
+  Proofs.C08_Machine Proofs.C08_Tree Proofs.C08_Cycle Proofs.C08_Witness.
 
 (* The stack machine (work stack + exit sentinels + id registry + new_items_stack
    + path) IS the bottom-up recursion: for every input term (shared and cyclic
@@ -34,6 +34,23 @@ Print Assumptions C08_tree.
 Example C08_tree_inhabited :
   is_tree ex_tree = true /\ NoDup (ids ex_tree) /\ length (ids ex_tree) = 4.
 Proof. exact ex_tree_ok. Qed.
+
+(* REFINEMENT TO THE SPEC: the machine returns exactly what Spec.spec_remap (the
+   memoising recursion in which reference cycles are preserved) returns - value,
+   registry, calls - for every input in which no tuple/frozenset is reached again
+   from inside itself.  [imm_backref [] root = false] is the same guard the
+   checker's `known` bit uses for finding C08-tuple-cycle; [ok_rebuild] in
+   Check/C08_Check.v evaluates exactly [spec_remap] on the implementation's
+   observation.  Mutable cycles (lists, dicts, sets) are inside the theorem. *)
+Theorem C08_machine_refines_spec_partial : forall visit root,
+  imm_backref [] root = false ->
+  remap visit (collect_defs root) root = spec_remap visit root.
+Proof. exact machine_refines_spec. Qed.
+Print Assumptions C08_machine_refines_spec_partial.
+
+Example C08_refines_inhabited_by_a_cycle :
+  imm_backref [] ex_cyclic = false /\ exists v m lg, spec_remap None ex_cyclic = Done v m lg.
+Proof. exact ex_cyclic_ok. Qed.
 
 (* FULL STATEMENT (refuted for the code as it is):
      forall visit root, remap visit (collect_defs root) root = spec_remap visit root
